@@ -2,6 +2,7 @@ package props
 
 import (
 	"fmt"
+	"strings"
 
 	"verifsim/sim"
 	"verifsim/wire"
@@ -44,6 +45,17 @@ func genC07(g *Gen, tier string, idx int) *wire.Scenario {
 		if seq := g.Cat.ShortSeqFor(km, cmd); seq != "" {
 			sc.Script = append(sc.Script, tok(seq, cmd))
 		}
+	}
+	if !vi && len(env.History[0].Entries) > 0 && g.P(15) {
+		// an earlier prompt of the same shell, left while a recalled entry was shown: nothing of it
+		// belongs to the undo history of the next prompt's line
+		for _, r := range "gi" {
+			sc.Script = append(sc.Script, tok(string(r), "warm:self-insert"))
+		}
+		for i := 0; i < g.Range(1, 2); i++ {
+			sc.Script = append(sc.Script, tok(g.Cat.ShortSeqFor(km, "previous-history"), "warm:history-walk"))
+		}
+		sc.Script = append(sc.Script, tok("\x03", "warm:abort"))
 	}
 	if uni && !vi {
 		// start from a recalled multi-byte line
@@ -142,10 +154,28 @@ func genC07(g *Gen, tier string, idx int) *wire.Scenario {
 
 func execC07(x *Ctx, sc *wire.Scenario) *wire.Result {
 	res := okResult(sc)
-	out := runSession(x, sc, sc.Plan, sim.Hooks{}, false)
+	warm := 0
+	for _, t := range sc.Script {
+		if !strings.HasPrefix(t.Cmd, "warm:") {
+			break
+		}
+		warm++
+	}
+	hooks := sim.Hooks{}
+	if warm > 0 {
+		hooks.Body = func(s *sim.Session, sh *readlineShell) {
+			s.Readline(sh)
+			s.Readline(sh)
+		}
+	}
+	out := runSession(x, sc, sc.Plan, hooks, false)
 	absorb(res, out)
 	if out.End == "PANIC" || out.End == "DEADLOCK" || out.End == "LIVELOCK" {
 		res.Counters["skipped:crash"]++
+		return res
+	}
+	if warm > 0 && len(out.Returns) == 0 {
+		res.Counters["skipped:warm_up_call_did_not_return"]++
 		return res
 	}
 	var entries []string
@@ -192,6 +222,9 @@ func execC07(x *Ctx, sc *wire.Scenario) *wire.Result {
 	consecutiveUndos := 0
 	identKnown := true
 	for i, t := range sc.Script {
+		if i < warm {
+			continue // the earlier prompt
+		}
 		before := waitAfter(out, i)
 		after := waitAfter(out, i+1)
 		if before == nil || after == nil || before.Kind != "main" || after.Kind != "main" {
